@@ -987,6 +987,12 @@ func init() {
 			y = roaring64.New()
 		}
 		r := decode64(y, entry, data)
+		if r.class == "ok" && entry != "fromunsafe" {
+			// the copying entry points must not keep a reference to the caller's bytes
+			for i := range data {
+				data[i] ^= 0xFF
+			}
+		}
 		if r.class != "ok" {
 			delete(e.bm64, a[0])
 			if r.class == "err" {
@@ -1108,12 +1114,17 @@ func init() {
 		if err != nil {
 			return "err:serialize"
 		}
+		step := 1
 		if len(ser) > 1<<15 {
-			return "toobig"
+			// big streams: every prefix of the first 300 bytes (the outer count, the first key, the first inner header), then samples
+			step = len(ser) / 700
 		}
 		firstOk, firstPanic := -1, -1
 		reused := roaring64.New()
 		for k := 0; k < len(ser); k++ {
+			if step > 1 && k > 300 && k%step != 0 && k%step != 1 && k < len(ser)-40 {
+				continue
+			}
 			y := reused
 			if k%2 == 0 {
 				y = roaring64.New()
